@@ -436,7 +436,8 @@ fn decode_metadata(data: &[u8]) -> Result<HashMap<String, Vec<u8>>, ZmqError> {
     if current + key_len > data.len() {
       return Err(ZmqError::ProtocolViolation("Invalid metadata".into()));
     }
-    let key = String::from_utf8(data[current..current + key_len].to_vec()).unwrap();
+    let key = String::from_utf8(data[current..current + key_len].to_vec())
+      .map_err(|_| ZmqError::ProtocolViolation("Invalid metadata".into()))?;
     current += key_len;
 
     if current + 4 > data.len() {
